@@ -347,6 +347,8 @@ impl Scenario for IoMem {
 enum FdKind {
     File,
     UnixStream,
+    /// a TcpStream object around one end of a socket pair (the adapter only uses the descriptor)
+    Tcp,
     OwnedPipe,
     Borrowed,
     Stdout,
@@ -464,7 +466,7 @@ impl Scenario for IoFd {
 
     fn run(&self) -> RunInfo {
         cx().mode = Mode::Setup;
-        let kind = [FdKind::File, FdKind::UnixStream, FdKind::OwnedPipe, FdKind::Borrowed, FdKind::Stdout][cx().a(5) as usize];
+        let kind = [FdKind::File, FdKind::UnixStream, FdKind::OwnedPipe, FdKind::Borrowed, FdKind::Stdout, FdKind::Tcp][cx().a(6) as usize];
         let flen = cx().a(80) as usize;
         let fdata: Vec<u8> = (0..flen).map(data_byte).collect();
         // real kernel objects, all anonymous
@@ -483,12 +485,13 @@ impl Scenario for IoFd {
                 raw_write_fd(pw.as_raw_fd(), &fdata);
                 model.inq = fdata.clone();
             }
-            FdKind::UnixStream => {
+            FdKind::UnixStream | FdKind::Tcp => {
                 raw_write_fd(sb.as_raw_fd(), &fdata);
                 model.inq = fdata.clone();
             }
             FdKind::Stdout => cx().sys.stdout_capture = Some(Vec::new()),
         }
+        let mut tstream = std::net::TcpStream::from(sa.try_clone().expect("dup"));
         let mut ustream = std::os::unix::net::UnixStream::from(sa);
         let mut file = file;
         let mut pr = pr; // we read from the pipe's read end
@@ -534,6 +537,7 @@ impl Scenario for IoFd {
                 match kind {
                     FdKind::File => drive!(file),
                     FdKind::UnixStream => drive!(ustream),
+                    FdKind::Tcp => drive!(tstream),
                     FdKind::OwnedPipe => drive!(pr),
                     FdKind::Borrowed => {
                         let mut b = file.as_fd();
@@ -660,7 +664,7 @@ impl Scenario for IoFd {
                         cx().violate("C13", "C13/posix", format!("file state {:?}", kind), format!("{:?}: file holds {} byte(s) at offset {}, the byte-stream model says {} byte(s) at offset {} (contents equal: {})", log, all.len(), pos, model.file.len(), model.off, all == model.file));
                     }
                 }
-                FdKind::UnixStream => {
+                FdKind::UnixStream | FdKind::Tcp => {
                     let got = raw_read_fd(sb.as_raw_fd(), model.out.len() + 64);
                     if got != model.out {
                         cx().violate("C13", "C13/posix", "peer received".into(), format!("{:?}: the peer received {} byte(s), the model says {}", log, got.len(), model.out.len()));
@@ -676,7 +680,7 @@ impl Scenario for IoFd {
             }
         }
         cx().sys.stdout_capture = None;
-        let _ = (&mut pw_keep, &mut ustream);
+        let _ = (&mut pw_keep, &mut ustream, &mut tstream);
         let desc = if cx().trace { Some(J::obj().set("descriptor", J::s(format!("{:?}", kind))).set("stream_len", J::i(flen)).set("calls", J::strs(log.clone()))) } else { None };
         cx().mode = Mode::Oracle;
         RunInfo { nontrivial: faults > 0 && plain > 0, desc, cell: None }
